@@ -5,5 +5,7 @@ cd /verif/harness || exit 1
 cat /repo/go.sum go.sum.extra 2>/dev/null | sort -u > go.sum
 T="$(mktemp -d /tmp/vsetup-XXXXXX)"; trap 'rm -rf "$T"' EXIT
 go build -tags verif -o "$T/vcheck" ./cmd/vcheck || exit 1
-go build -race -tags verif -o "$T/vcheck-race" ./cmd/vcheck || exit 1
+go build -race -tags "verif logtrace" -o "$T/vcheck-race" ./cmd/vcheck || exit 1   # C19
+go build -tags "verif logtrace" -o "$T/vcheck-trace" ./cmd/vcheck || exit 1        # C20's traced-build leg
+(cd /repo && go build -o "$T/asm" ./dev/asm && go build -o "$T/disasm" ./dev/disasm) || exit 1   # command legs of C15, C16
 echo setup ok
